@@ -10,7 +10,7 @@ extra=()
 : > "$WORK/vinstr.log"
 for pkg in "$@"; do
   name="$(echo "$pkg" | tr '/' '_')"
-  (cd /repo && "$WORK/vinstr" ${VINSTR_FLAGS:--race} -dir "/repo/$pkg" -out "$WORK/instr/$name" -overlay "$WORK/instr/$name.json") >> "$WORK/vinstr.log"
+  (cd "${VERIF_REPO:-/repo}" && "$WORK/vinstr" ${VINSTR_FLAGS:--race} -dir "${VERIF_REPO:-/repo}/$pkg" -out "$WORK/instr/$name" -overlay "$WORK/instr/$name.json") >> "$WORK/vinstr.log"
   extra+=("$WORK/instr/$name.json")
 done
 python3 "$ROOT/tools/overlay.py" "$WORK/overlay.json" "${extra[@]}"
